@@ -325,6 +325,7 @@ pub struct H {
     pub current: String,
     pub cur_path: Option<String>,
     pub tag: i64, // script line of the event (exec), -1 otherwise
+    pub light: bool, // light observation: len/capacity only (long histories)
 }
 
 fn dump_json(d: &gecs::verif::Dump) -> J {
@@ -436,6 +437,7 @@ impl H {
             current: String::new(),
             cur_path: None,
             tag: -1,
+            light: false,
         }
     }
 
@@ -622,7 +624,16 @@ impl H {
         let mut obs = Vec::new();
         for wi in 0..NW {
             if self.worlds[wi].is_some() {
-                obs.push(self.observe_world(wi));
+                if self.light {
+                    let w = self.worlds[wi].as_ref().unwrap();
+                    let ar: Vec<J> = (0..NARCH).map(|ai| {
+                        let (len, cap, emp): (usize, usize, bool) = with_arch!(ai, A => { let a = A::arch(w); (a.len(), a.capacity(), a.is_empty()) });
+                        J::O(vec![("a", ji(ai)), ("len", ji(len)), ("cap", ji(cap)), ("emp", J::B(emp))])
+                    }).collect();
+                    obs.push(J::O(vec![("w", ji(wi)), ("light", J::B(true)), ("ar", J::A(ar))]));
+                } else {
+                    obs.push(self.observe_world(wi));
+                }
             }
         }
         ev.push(("obs", J::A(obs)));
